@@ -365,8 +365,8 @@ func matrix(args []string) {
 		for _, mf := range multiBeforeDescent() {
 			for _, tail := range afterDescent() {
 				d := rowsDoc(oc)
-				emit(3, append([]jl.Frag{jl.FRoot(), jl.FChild("rows"), mf, jl.FDesc()}, tail...), d)
-				emit(2, append([]jl.Frag{jl.FRoot(), mf, jl.FDesc()}, tail...), jl.Norm(d["o"].([]jl.Node)[1]))
+				emit(4, append([]jl.Frag{jl.FRoot(), jl.FChild("rows"), mf, jl.FDesc()}, tail...), d) // fragment under test: the descent
+				emit(3, append([]jl.Frag{jl.FRoot(), mf, jl.FDesc()}, tail...), jl.Norm(d["o"].([]jl.Node)[1]))
 			}
 		}
 	}
